@@ -391,6 +391,107 @@ impl Host for CoreHost {
 }
 
 // ---------------------------------------------------------------------------------------------
+// AppTester (crux_core::testing): the host every app developer's unit tests rely on.  `update` and
+// `resolve` run the executor once and hand back effects AND events; the events are not applied.  The
+// driver keeps the returned events and feeds them back through `update` on its "noop" steps (mostly
+// oldest first, sometimes newest first: the test decides the order).
+
+pub struct TesterHost {
+    ctx: Arc<CaseCtx>,
+    tester: crux_core::testing::AppTester<VApp>,
+    model: crate::app::Model,
+    held: HashMap<[u32; 3], Request<VOp>>,
+    seen: usize,
+    pending: std::collections::VecDeque<Event>,
+    feeds: u32,
+}
+
+impl TesterHost {
+    pub fn new(ctx: Arc<CaseCtx>) -> Self {
+        TesterHost {
+            ctx,
+            tester: crux_core::testing::AppTester::default(),
+            model: crate::app::Model::default(),
+            held: HashMap::new(),
+            seen: 0,
+            pending: Default::default(),
+            feeds: 0,
+        }
+    }
+    fn obs(&mut self, mut line: Value, upd: crux_core::testing::Update<Effect, Event>) -> Obs {
+        let ops = crate::app::live_ops() - self.ctx.ops_base;
+        let mut new_ops = vec![];
+        let mut ej = vec![];
+        let crux_core::testing::Update { effects, events } = upd;
+        for e in effects {
+            let Effect::Op(req) = e;
+            ej.push(eff_json(&req.operation));
+            new_ops.push(req.operation.clone());
+            self.held.insert(req.operation.o, req);
+        }
+        let evj: Vec<Value> = events.iter().map(ev_json).collect();
+        self.pending.extend(events);
+        let delta: Vec<Value> = self.model.log[self.seen..].iter().map(ev_json).collect();
+        self.seen = self.model.log.len();
+        let m = line.as_object_mut().unwrap();
+        m.insert("ops".into(), json!(ops));
+        m.insert("effs".into(), Value::Array(ej));
+        m.insert("evs".into(), Value::Array(evj));
+        m.insert("log".into(), Value::Array(delta));
+        m.insert("alive".into(), json!(crate::dsl::alive()));
+        m.insert("maxin".into(), json!(self.ctx.max_in_update.load(Ordering::SeqCst)));
+        Obs { line, new_ops, kinds: vec![] }
+    }
+}
+
+impl Host for TesterHost {
+    fn run(&mut self, p: u32) -> Obs {
+        let upd = self.tester.update(Event::Run(p), &mut self.model);
+        self.obs(json!({"e":"event","ev":{"kind":"run","p":p}}), upd)
+    }
+    fn noop(&mut self) -> Option<Obs> {
+        self.feeds += 1;
+        let ev = if self.feeds % 3 == 0 { self.pending.pop_back() } else { self.pending.pop_front() };
+        let ev = ev.unwrap_or(Event::Noop);
+        let evj = ev_json(&ev);
+        let upd = self.tester.update(ev, &mut self.model);
+        Some(self.obs(json!({"e":"event","ev":evj}), upd))
+    }
+    fn resolve(&mut self, o: [u32; 3], val: u32) -> Option<Obs> {
+        let req = self.held.get_mut(&o)?;
+        let r = self.tester.resolve(req, val);
+        let res = match &r {
+            Ok(_) => "ok",
+            Err(e) => match e.downcast_ref::<crux_core::ResolveError>() {
+                Some(crux_core::ResolveError::Never) => "never",
+                Some(crux_core::ResolveError::FinishedMany) => "finished",
+                None => "other",
+            },
+        };
+        let upd = r.unwrap_or(crux_core::testing::Update { effects: vec![], events: vec![] });
+        Some(self.obs(json!({"e":"resolve","o":o,"val":val,"res":res}), upd))
+    }
+    fn drop_req(&mut self, o: [u32; 3]) -> Option<Obs> {
+        let req = self.held.remove(&o)?;
+        drop(req);
+        Some(Obs { line: json!({"e":"drop","o":o}), new_ops: vec![], kinds: vec![] })
+    }
+    fn abort(&mut self, c: [u32; 2]) -> Option<Obs> {
+        let f = self.ctx.aborts.lock().unwrap().get(&(c[0], c[1])).cloned()?;
+        f();
+        Some(Obs { line: json!({"e":"abort","c":c}), new_ops: vec![], kinds: vec![] })
+    }
+    fn can_drop(&self) -> bool {
+        true
+    }
+    fn abortable(&self) -> Vec<[u32; 2]> {
+        let mut v: Vec<_> = self.ctx.aborts.lock().unwrap().keys().map(|k| [k.0, k.1]).collect();
+        v.sort();
+        v
+    }
+}
+
+// ---------------------------------------------------------------------------------------------
 // Bridge (bincode) and BridgeWithSerializer (JSON)
 
 enum AnyBridge {
@@ -679,6 +780,7 @@ pub fn make_host(name: &str, ctx: Arc<CaseCtx>) -> Box<dyn Host> {
         "direct" => Box::new(Direct::new(ctx)),
         "stream" => Box::new(StreamHost::new(ctx)),
         "core" => Box::new(CoreHost::new(ctx)),
+        "tester" => Box::new(TesterHost::new(ctx)),
         "bridge_bin" => Box::new(BridgeHost::new(ctx, false)),
         "bridge_json" => Box::new(BridgeHost::new(ctx, true)),
         other => panic!("unknown host {other}"),
